@@ -47,7 +47,7 @@ def BOUNDS(tier):
 def REQUIRED_COVER(tier):
     return {'v:null', 'v:int', 'v:cell', 'v:slice', 'v:builder', 'v:tuple', 'v:cont', 'int:tiny', 'int:big', 'tuple:len0', 'tuple:len1', 'tuple:len2', 'tuple:len3', 'tuple:nested',
             'slice:consumed', 'cont:std', 'cont:envelope', 'cont:quit', 'cont:quit_exc', 'cont:repeat', 'cont:until', 'cont:again', 'cont:while_cond', 'cont:while_body',
-            'cont:pushint', 'cdata:nargs0', 'cdata:cp0', 'cdata:stack', 'cdata:save', 'foreign:int257', 'foreign:slice-offsets', 'history:rearrival', 'history:alias', 'deep:stack', 'deep:tuple'}
+            'cont:pushint', 'cdata:nargs0', 'cdata:cp0', 'cdata:stack', 'cdata:save', 'foreign:int257', 'foreign:slice-offsets', 'history:rearrival', 'history:alias', 'history:refused-call', 'deep:stack', 'deep:tuple'}
 
 
 # ------------------------------------------------------------------------------------------ alphabet (JSON-able specs)
@@ -770,6 +770,7 @@ def h_enabled(pool):
             if len(pool[i].list):
                 ev.append(['t_pop', i])             # the caller shrinks / edits its own tuple through every public way
                 ev.append(['t_edit', i])
+                ev.append(['t_poison', i])          # ... puts a value no stack can hold into it (serialising must refuse), repairs it later (t_edit)
             for j in (1, 3, 0):
                 if j < n and j in vals and (j < i or not isinstance(pool[j], VmTuple)):      # never build a cyclic value
                     ev.append(['t_append', i, j])
@@ -811,6 +812,9 @@ def h_apply(pool, ev):
     if op == 't_edit':
         pool[ev[1]].list[0] = 424242
         return 'ok'
+    if op == 't_poison':
+        pool[ev[1]].list[0] = 1 << 256      # outside the 257-bit signed range
+        return 'ok'
     if op == 'b_store_ref':
         from pytoniq_core.boc import Builder
         pool[ev[1]].store_ref(Builder().store_uint(0xC17, 12).end_cell())
@@ -841,7 +845,16 @@ def h_canon(pool):
 
 
 H_MEMO = {}
-CALLER_EDITS = ('t_append', 't_pop', 't_edit', 'b_store_ref', 'b_store_bits', 's_load_bit')
+CALLER_EDITS = ('t_append', 't_pop', 't_edit', 't_poison', 'b_store_ref', 'b_store_bits', 's_load_bit')
+
+
+def unserialisable(c):
+    """does the logical value hold an integer outside the 257-bit signed range (the one thing in the pool no VM stack can hold)"""
+    if isinstance(c, tuple):
+        if len(c) == 2 and c[0] == 'int':
+            return not -(1 << 256) <= c[1] < (1 << 256)
+        return any(unserialisable(x) for x in c)
+    return False
 
 
 def run_history(rec, hist, check=True):
@@ -858,7 +871,20 @@ def run_history(rec, hist, check=True):
         except Exception as e:
             if ev[0] in CALLER_EDITS:
                 raise
+            src = tuple(before[i] for i in ev[1]) if ev[0] == 'ser_stack' else (before[ev[1]] if ev[0].startswith('ser') else None)
+            if src is not None and unserialisable(src):
+                # a refused call: nothing the caller holds may have changed, and nothing may be remembered of it (later events go on)
+                rec.covered('history:refused-call')
+                after = h_canon(pool)[:len(before)]
+                if after != before:
+                    i = next(i for i, (a, b) in enumerate(zip(before, after)) if a != b)
+                    return pool, ('consumed:' + ev[0], f'step {step} {ev} (refused): caller-held value #{i} changed from {str(before[i])[:160]} to {str(after[i])[:160]}')
+                continue
             return pool, ('raises:' + ev[0], f'step {step} {ev}: raised {exc_name(e)}: {e}')
+        if ev[0].startswith('ser'):
+            src0 = tuple(before[i] for i in ev[1]) if ev[0] == 'ser_stack' else before[ev[1]]
+            if unserialisable(src0):
+                return pool, ('accepted-unserialisable:' + ev[0], f'step {step} {ev}: a value holding an integer outside the 257-bit range was serialised')
         after = h_canon(pool)[:len(before)]
         if ev[0] in CALLER_EDITS:
             # intended change: exactly the object ev[1] (and every tuple containing that same object) changes; the cells
